@@ -31,6 +31,15 @@ fn commit(db: &Db, writes: Vec<([u8; 32], Option<Vec<u8>>)>) {
 /// C12: a stale `FinishedSession::try_commit_nonblocking` is rejected; afterwards rollback(1) must
 /// restore exactly the state before the *accepted* commit A (as if B had never been attempted).
 fn c12_session_try_commit(dir: &str) -> bool {
+    c12_session_stale(dir, true)
+}
+
+/// same history with the blocking `FinishedSession::commit`.
+fn c12_session_commit(dir: &str) -> bool {
+    c12_session_stale(dir, false)
+}
+
+fn c12_session_stale(dir: &str, nonblocking: bool) -> bool {
     let _ = std::fs::remove_dir_all(dir);
     let db: Db = Nomt::open(opts(dir, true)).unwrap();
     commit(&db, vec![(key(1), Some(vec![1])), (key(2), Some(vec![2]))]);
@@ -42,8 +51,7 @@ fn c12_session_try_commit(dir: &str) -> bool {
     let fb = sb.finish(vec![(key(3), KeyReadWrite::Write(Some(vec![3])))]).unwrap();
     fa.commit(&db).unwrap();
     let root_after_a = db.root();
-    let r = fb.try_commit_nonblocking(&db);
-    let rejected = r.is_err();
+    let rejected = if nonblocking { fb.try_commit_nonblocking(&db).is_err() } else { fb.commit(&db).is_err() };
     let unchanged = db.root() == root_after_a && db.read(key(1)).unwrap() == Some(vec![0xa]);
     // what later rollbacks restore must be as if B had never been attempted
     db.rollback(1).unwrap();
@@ -475,6 +483,7 @@ fn main() {
     let (name, dir) = (a[1].as_str(), a[2].as_str());
     let ok = match name {
         "c12_session_try_commit" => c12_session_try_commit(dir),
+        "c12_session_commit" => c12_session_commit(dir),
         "c12_overlay_commit" => c12_overlay_commit(dir, false),
         "c12_overlay_try_commit" => c12_overlay_commit(dir, true),
         "c12_overlay_parent_rejected" => c12_overlay_parent_rejected(dir, false),
